@@ -355,7 +355,7 @@ def pipeline_body(ctx: Ctx, p: dict) -> None:
 
         cls.interpolated_disparity = make()
     try:
-        drive.run_pipeline(pipeline=gen.pipe_dict(p["pipeline"]), disp=tuple(p["disp"]), **kw)
+        filled = drive.run_pipeline(pipeline=gen.pipe_dict(p["pipeline"]), disp=tuple(p["disp"]), **kw)
     finally:
         for cls, orig in saved:
             cls.interpolated_disparity = orig
@@ -363,7 +363,30 @@ def pipeline_body(ctx: Ctx, p: dict) -> None:
     for rec in calls:
         res = judge(ctx, rec["method"], rec["d"], rec["m"], rec["gd"], rec["gm"], rec["off"])
         tot = [x + y for x, y in zip(tot, res[:3])]
-    ctx.case(p, nontrivial=bool(tot[2] and tot[0]), classes=[f"fill-calls={len(calls)}"] + (["unfillable"] if tot[1] else []))
+    classes = [f"fill-calls={len(calls)}"] + (["unfillable"] if tot[1] else [])
+    # ---- "only pixels flagged by the cross-check can change": the same pipeline without the filling option gives the
+    # cross-check's verdict; every pixel it leaves unflagged is bit-identical in the filled products, left and right
+    vals = [i for i, (n, _) in enumerate(p["pipeline"]) if n.split(".")[0] == "validation"]
+    if len(vals) == 1 and vals[0] == len(p["pipeline"]) - 1:
+        bare = [[n, {k: v for k, v in c.items() if k != "interpolated_disparity"}] for n, c in p["pipeline"]]
+        plain = drive.run_pipeline(pipeline=gen.pipe_dict(bare), disp=tuple(p["disp"]), **kw)
+        for side in ("left", "right"):
+            d0, m0 = getattr(plain, side)["disparity_map"].data, getattr(plain, side)["validity_mask"].data.astype(int)
+            d1, m1 = getattr(filled, side)["disparity_map"].data, getattr(filled, side)["validity_mask"].data.astype(int)
+            unflagged = (m0 & (256 | 512)) == 0
+            diff = unflagged & ((m0 != m1) | ~((d0 == d1) | (np.isnan(d0) & np.isnan(d1))))
+            if diff.any():
+                r, c = np.argwhere(diff)[0]
+                ctx.violation("C14/pixel-not-flagged-by-the-cross-check-changed",
+                              f"{side} pixel {(int(r), int(c))}: {float(d0[r, c])}/{int(m0[r, c])} without filling, "
+                              f"{float(d1[r, c])}/{int(m1[r, c])} with {p['pipeline'][-1][1]['interpolated_disparity']}")
+            gone = ~unflagged & ((m1 & (256 | 512 | 16 | 32)) == 0)
+            if gone.any():
+                r, c = np.argwhere(gone)[0]
+                ctx.violation("C14/flagged-pixel-neither-kept-nor-filled",
+                              f"{side} pixel {(int(r), int(c))}: mask {int(m0[r, c])} without filling, {int(m1[r, c])} with it")
+        classes.append("vs-no-filling")
+    ctx.case(p, nontrivial=bool(tot[2] and tot[0]), classes=classes)
 
 
 CHECKS = [
